@@ -111,6 +111,60 @@ def h_web_views(c0: bytes, c1: bytes, target: int, body: bytes) -> bool:
     return run(body_web_views, c0, c1, target, body)
 
 
+def body_read_overlap(c0, bodyB, method_head):
+    """A GET / HEAD whose body read (the to_thread suspension between resource look-up and store.get_file) is
+    overtaken by a complete PUT of new content: the ETag sent must still be the id of the bytes sent."""
+    from xv.env import world as Wm
+    wsgi, prefix = ctx.PART
+    S = {"a.ics": c0}
+    if len(c0) == 0 or not SP.invariant(S) or not SP.valid("a.ics", bodyB):
+        return (True, "pre-invalid")
+    mweb.fresh_world(S, {})
+    app = mweb.make_app()
+    path = mweb.CAL + "/a.ics"
+    done = {}
+
+    def intruder():
+        done["put"] = mweb.call(app, "PUT", path, body=bodyB, content_type="text/calendar", prefix=prefix).status_class
+
+    Wm.TO_THREAD_HOOK[0] = intruder
+    try:
+        g = mweb.call(app, "GET", path, prefix=prefix)
+    finally:
+        Wm.TO_THREAD_HOOK[0] = None
+    if g.status_class != "2xx":
+        return (False, "get-failed")
+    etag = g.header("ETag")
+    ok = etag == '"' + mstore.expected_etag("tree", g.body) + '"'
+    # multiget: getetag and calendar-data of one response belong together as well
+    el = Wd.ET.Element("{urn:ietf:params:xml:ns:caldav}calendar-multiget")
+    prop = Wd.ET.SubElement(el, "{DAV:}prop")
+    Wd.ET.SubElement(prop, "{DAV:}getetag")
+    Wd.ET.SubElement(prop, "{urn:ietf:params:xml:ns:caldav}calendar-data")
+    Wd.ET.SubElement(el, "{DAV:}href").text = prefix.rstrip("/") + path
+    mweb.fresh_world(S, {})
+    app = mweb.make_app()
+    Wm.TO_THREAD_HOOK[0] = intruder
+    try:
+        m = mweb.call(app, "REPORT", mweb.CAL + "/", xml=el, content_type="text/xml", prefix=prefix)
+    finally:
+        Wm.TO_THREAD_HOOK[0] = None
+    if m.statuses:
+        data = mweb.prop_text(m.statuses[0], "{urn:ietf:params:xml:ns:caldav}calendar-data")
+        et = mweb.prop_text(m.statuses[0], "{DAV:}getetag")
+        if data is not None and et is not None:
+            ok = ok and et == '"' + mstore.expected_etag("tree", data.encode("utf-8")) + '"'
+    return (ok, "overtaken" if "put" in done else "not-overtaken")
+
+
+def h_read_overlap(c0: bytes, bodyB: bytes, method_head: bool) -> bool:
+    """
+    pre: len(c0) <= ctx.b.blen and 1 <= len(bodyB) <= ctx.b.blen
+    post: _
+    """
+    return run(body_read_overlap, c0, bodyB, method_head)
+
+
 def body_quoting(e):
     if '"' in e:
         return (True, "pre-invalid")
@@ -147,6 +201,13 @@ HARNESSES = [
                      "xandikos.webdav.GetETagProperty.get_value", "xandikos.webdav.PutMethod.handle", "xandikos.webdav._do_get",
                      "xandikos.davcommon.MultiGetReporter.report", "xandikos.sync.SyncCollectionReporter.report",
                      "xandikos.webdav.get_property_from_name"]),
+    Harness("read_overlap", h_read_overlap, body_read_overlap, classes=[("overtaken", (False, "/"))],
+            parts={"quick": [(False, "/")], "thorough": [(False, "/"), (False, "/dav/")]}, bounds=_B,
+            budget={"quick": 75, "thorough": 300},
+            describe="GET and calendar-multiget whose to_thread suspension (between look-up and body read) is overtaken by "
+                     "a PUT: the ETag served is the id of the bytes served",
+            encodes=["xandikos.web.ObjectResource.get_file", "xandikos.web.ObjectResource.get_body",
+                     "xandikos.webdav._do_get", "xandikos.caldav.CalendarDataProperty.get_value_ext"]),
     Harness("quoting", h_quoting, body_quoting, classes=["roundtrip"], bounds=_B, budget={"quick": 30, "thorough": 120},
             describe="extract_strong_etag(create_strong_etag(e)) == e for every e without a double quote",
             encodes=["xandikos.web.create_strong_etag", "xandikos.web.extract_strong_etag"]),
